@@ -34,15 +34,15 @@ FILES = {
  "C08": "Models/Vss.v, EntryVss.v, Proofs/VssProofs.v; harness props/c08.go",
  "C09": "Models/Share.v, EntryShare.v, Proofs/PolyLemmas.v, Lagrange.v, ShareProofs.v, ZqField.v; harness props/c09.go",
  "C10": "Gen/BnConsts.v (T0), Models/Bn.v, BnPairing.v, EntryBn.v, Proofs/BnFieldProofs.v, BnTowerProofs.v; harness props/c10.go",
- "C11": "Models/Bn.v, EntryBn.v, Proofs/BnCodecProofs.v; harness props/c11.go",
+ "C11": "Models/Bn.v, EntryBn.v, Proofs/BnCodecProofs.v, BnCodecG2.v; harness props/c11.go",
  "C12": "Models/Guards.v, Proofs/GuardsProofs.v (+ QueryLoopProofs frame); harness props/c12.go (child processes)",
- "C13": "Models/QueryLoop.v, Proofs/QueryLoopProofs.v; harness props/c13.go",
+ "C13": "Models/QueryLoop.v, Proofs/QueryLoopProofs.v, QueryLoopRereg.v; harness props/c13.go (end-to-end family on props/c01.go's system runner)",
  "C14": "Models/Pipes.v, PipesCheck.v, PipeNetsOld.v, Gen/PipeNets.v (T3), Proofs/PipesProofs.v, PipesCheckProofs.v; translate/skel; harness props/c14.go (child processes)",
  "C15": "Models/Framing.v, Proofs/FramingProofs.v; harness props/c15.go",
  "C16": "Models/P2PRecv.v, Proofs/P2PRecvProofs.v; harness props/c16.go (TCP proxy, raw peer; child processes)",
  "C17": "Models/Dispatch.v, Proofs/DispatchProofs.v; harness props/c17.go",
  "C18": "Models/FirstEvent.v, Gen/EventTable.v (T4), Proofs/FirstEventProofs.v; harness props/c18.go, doubles/ethnode.go",
- "C19": "Models/Abi.v, Proofs/AbiProofs.v; harness props/c19.go, doubles/ethnode.go",
+ "C19": "Models/Abi.v, Adaptor.v, Proofs/AbiProofs.v, AdaptorProofs.v; harness props/c19.go, doubles/ethnode.go",
  "C20": "Models/Schnorr.v, ScLimbs.v, Gen/Ref10Sc.v (T2), Proofs/SchnorrProofs.v, ScLimbsProofs.v, ScInstances.v, ScOverflow.v; harness props/c20.go",
 }
 
